@@ -2,9 +2,9 @@
 """Regenerates MANIFEST.json from the table below (run from /verif)."""
 import json, subprocess
 CHECKS = {
- "C01": dict(tech="proptest generated pairs vs exact DE-9IM oracle (cell decomposition), transpose + re-representation metamorphic relations",
+ "C01": dict(tech="proptest generated pairs vs exact DE-9IM oracle (cell decomposition; exact predicates on the doubles for segment pairs), transpose + re-representation metamorphic relations; libFuzzer in the thorough tier",
              text="Every generated ordered pair (all 10 types + collections, coincidence-biased lattice scenes, exact similarity images up to offsets of 2^40) is related by geo and compared cell by cell with an exact by-definition DE-9IM computed from the joint arrangement; both operand orders, the Geometry-enum path and two re-representations per pair. Held-on-everything-explored, not a proof.",
-             note="Trusted: the harness's exact reference model (i128 rational arrangement + by-definition point location, self-tested); inputs are exact images of small-integer lattice geometries only.", ref="DESIGN.md §4 C01"),
+             note="Trusted: the harness's exact reference model (i128 rational arrangement + by-definition point location, self-tested). Inputs are exact images of small-integer lattice geometries, except the sub-family 'segments in doubles' (two segments with arbitrary double end points, decided by exact orientation signs on the doubles). Two known findings are excluded by exactly computed input classes (DESIGN 5.2).", ref="DESIGN.md §4 C01"),
  "C02": dict(tech="proptest generated pairs; every Intersects/Contains/Within impl and coordinate_position vs masks on the exact DE-9IM oracle / exact point location",
              text="For every generated ordered pair all concrete-type, Geometry-enum, mixed and Coord forms of intersects / contains / is_within are compared with the documented masks evaluated on the exact oracle matrix, and coordinate_position with exact point location at up to 200 lattice points around each operand.",
              note="Trusted: exact reference model; mask semantics as documented on the traits; lattice-image inputs only.", ref="DESIGN.md §4 C02"),
@@ -14,16 +14,16 @@ CHECKS = {
  "C05": dict(tech="proptest generated polygons with independent ring directions under exact similarities vs exact i128 twice-area",
              text="signed/unsigned area, Rect/Triangle vs polygon form, collection sums, winding_order/is_cw/is_ccw for every ring with rotated start and repeated points, and orient(Default/Reversed) are compared with the exact integer shoelace area scaled by 4^k, at translations up to 2^40.",
              note="Trusted: exact integer area on the lattice; tolerance 1e-12 x sum of |edge determinants|.", ref="DESIGN.md §4 C05"),
- "C06": dict(tech="proptest generated (nested, mixed-dimension, degenerate) geometries vs by-definition centroid with exact integer moments",
+ "C06": dict(tech="proptest generated (nested, mixed-dimension, degenerate) geometries vs by-definition centroid with exact integer moments; sliver triangles and tiny-length segments in doubles vs hull / weighted-mean predicates",
              text="centroid of every type incl. degenerate and empty members and nested mixed collections is compared with the definition (exact integer moments for areas, length-weighted midpoints, mean of points), None iff no coordinates, hull containment, equivariance under exact similarities.",
              note="Trusted: oracle accumulators; tolerance 16 ulp of the coordinate magnitude + 1e-9 extent. Point weights of degenerate line strings in zero-dimensional collections are unspecified and only hull-checked.", ref="DESIGN.md §4 C06"),
  "C08": dict(tech="proptest generated coordinate multisets (tiny lattices, collinear, large-magnitude near-parallel rows) vs exact strict hull",
              text="quick_hull, graham_hull and convex_hull() outputs are checked for closedness, strict left turns, vertex membership, containment of every input (exact i128 orientation) and vertex-set equality with the exact strict hull; minimum_rotated_rect for containment and area bound.",
-             note="Trusted: exact monotone-chain hull in i128; integer-valued coordinates (f64 up to 2^52, i64 below 2^29).", ref="DESIGN.md §4 C08"),
+             note="Trusted: exact monotone-chain hull in i128; integer-valued coordinates (f64 up to 2^52 with zeros of both signs, i64 below 2^30); generic doubles against an arbitrary-precision hull.", ref="DESIGN.md §4 C08"),
  "C09": dict(tech="proptest generated lines/rings and tolerances (incl. exact ties) vs validity predicates over the simplified output",
              text="RDP, Visvalingam and topology-preserving Visvalingam outputs (coordinate and index variants, Line/MultiLine/Polygon/MultiPolygon) are checked to be index-consistent subsequences keeping the end points, within the distance / area bound (existentially over embeddings when points repeat), closed and not below four coordinates where claimed, identity for eps <= 0.",
              note="Trusted: own point-segment distance and triangle area in f64 with relative tolerance 1e-9.", ref="DESIGN.md §4 C09"),
- "C11": dict(tech="proptest generated segment pairs (lattice, collinear, nearly parallel, large magnitude) vs exact arbitrary-precision classification",
+ "C11": dict(tech="proptest generated segment pairs (lattice, collinear, nearly parallel, large and extreme magnitude, f64 and the same points in f32) vs exact arbitrary-precision classification",
              text="line_intersection's class (None / proper / improper / Collinear), improper point bits, overlap endpoints, envelope containment and conditioning-scaled accuracy of proper points, agreement with intersects, and independence of segment order and direction are checked against an exact classification.",
              note="Trusted: BigInt dyadic arithmetic. Domain: coordinates zero or within [2^-400, 2^400]. The proper flag is not asserted for zero-length segments.", ref="DESIGN.md §4 C11"),
  "C17": dict(tech="proptest generated call histories on one PreparedGeometry vs plain relate and the exact DE-9IM oracle",
@@ -41,13 +41,13 @@ CHECKS.update({
  "C04": dict(tech="proptest generated (Multi)Polygon pairs vs exact trapezoid decomposition of the joint arrangement (membership + area oracle), metamorphic area identities",
              text="For intersection / union / difference / xor / boolean_op, unary_union and clip, the result's membership at every arrangement cell sample away from the input boundaries, its area, ring winding and closure, the three area identities, and the kept / dropped line lengths are compared with exact values from a trapezoid decomposition of the joint arrangement.",
              note="Trusted: exact cell decomposition; tolerance 2^-20 extent + 8 ulp, far above the overlay engine's 2^-29 extent grid.", ref="DESIGN.md §4 C04"),
- "C07": dict(tech="proptest generated pairs vs exact rational minimum squared distance and exact DE-9IM (zero iff intersecting)",
+ "C07": dict(tech="proptest generated pairs vs exact rational minimum squared distance and exact DE-9IM (zero iff intersecting); points next to segments at rounding level vs exact on-segment test; point sets at extreme scale",
              text="Euclidean distance for every ordered type pair, the enum path and re-representations is compared with sqrt of the exact minimum squared distance over primitive pairs; it must be exactly 0.0 iff the exact DE-9IM says the operands intersect.",
              note="Trusted: exact reference model; relative tolerance 1e-12 + 4 ulp of the coordinate magnitude.", ref="DESIGN.md §4 C07"),
  "C10": dict(tech="proptest generated valid polygons vs exact coverage-count oracle on the arrangement of polygon and piece edges",
              text="Ear-cut, constrained / outer / unconstrained Delaunay triangles and monotone pieces must cover every arrangement cell inside the polygon (resp. hull) exactly once and none outside, use only polygon vertices, sum to the exact area; MonotonicPolygons::intersects is compared with exact point location on a lattice; stitching must reproduce the area.",
              note="Trusted: exact trapezoid decomposition and point location; TriangulationError results are counted, not alarmed.", ref="DESIGN.md §4 C10"),
- "C12": dict(tech="proptest generated geometries and query points vs exact point location / exact distance",
+ "C12": dict(tech="proptest generated geometries and query points vs exact point location / exact distance; thin triangles in doubles vs exact orientation signs of the returned point",
              text="closest_point must be Intersection iff the query intersects the geometry, otherwise a point on the geometry at the true distance, never Indeterminate for valid non-empty input; interior_point (concrete and enum) must return a point that is exactly located on the geometry, strictly inside for areal ones; no panics.",
              note="Trusted: exact reference model; returned f64 points are dyadic rationals and located exactly when mapping back through the similarity is exact.", ref="DESIGN.md §4 C12"),
  "C13": dict(tech="proptest algebraic laws on generated matrix chains + metamorphic commutation of geo's algorithms with exact similarity maps",
